@@ -583,7 +583,11 @@ func (m *machine) runStep(idx int, s step) (stop bool) {
 		if pk, ok := p.(mq.Packet); ok {
 			mq.Dump(&dump, pk)
 		}
-		e := obj{"ev": "Diag", "h": s.H, "type": typeName(p), "string": ints([]byte(str)), "dump": ints(dump.Bytes()),
+		first := 0
+		if re, failed := reencode(p); !failed && len(re) > 0 {
+			first = re[0]
+		}
+		e := obj{"ev": "Diag", "h": s.H, "type": typeName(p), "first": first, "string": ints([]byte(str)), "dump": ints(dump.Bytes()),
 			"malformed": strings.Contains(str, "malformed!"), "strN": strN(str)}
 		if wf, ok := p.(mq.HasWellFormed); ok {
 			e["wfErr"] = wf.WellFormed() != nil
